@@ -15,7 +15,12 @@ import (
 	"runtime"
 	"strings"
 
+	"github.com/arnodel/golua/code"
 	"github.com/arnodel/golua/lib"
+	"github.com/arnodel/golua/lib/base"
+	"github.com/arnodel/golua/lib/debuglib"
+	"github.com/arnodel/golua/lib/packagelib"
+	"github.com/arnodel/golua/lib/runtimelib"
 	rt "github.com/arnodel/golua/runtime"
 
 	"verif/engine/refgc"
@@ -76,12 +81,24 @@ const (
 )
 
 var ctxName = [nCtxKinds]string{"cpu", "mem", "soft"}
-var ctxLua = [nCtxKinds]string{"{kill={cpu=20000}}", "{kill={memory=1000000}}", "{stop={cpu=1000000}}"}
+// cpuLimit: an inner context gets a quarter of its parent's limit, so that
+// killing the inner one by exhaustion never exhausts the outer one.
+func cpuLimit(depth int) uint64 { return 32000 >> (2 * uint(depth)) }
 
-func ctxDef(k uint8) rt.RuntimeContextDef {
+func ctxLua(k uint8, depth int) string {
 	switch k {
 	case cCPU:
-		return rt.RuntimeContextDef{HardLimits: rt.RuntimeResources{Cpu: 20000}}
+		return fmt.Sprintf("{kill={cpu=%d}}", cpuLimit(depth))
+	case cMem:
+		return "{kill={memory=1000000}}"
+	}
+	return "{stop={cpu=1000000}}"
+}
+
+func ctxDef(k uint8, depth int) rt.RuntimeContextDef {
+	switch k {
+	case cCPU:
+		return rt.RuntimeContextDef{HardLimits: rt.RuntimeResources{Cpu: cpuLimit(depth)}}
 	case cMem:
 		return rt.RuntimeContextDef{HardLimits: rt.RuntimeResources{Memory: 1000000}}
 	}
@@ -237,8 +254,8 @@ func (s *gstate) allowed(o bop, c *bcfg) bool {
 		if s.depth == 0 || !in(c.leaves, o.a) {
 			return false
 		}
-		if o.a == lLoop && !s.hardCPU() {
-			return false
+		if o.a == lLoop && s.stack[s.depth-1].kind != cCPU {
+			return false // (exhausting an inherited limit would take the parent down too)
 		}
 		return true
 	}
@@ -534,12 +551,23 @@ function killop() runtime.killcontext() end
 function loopop() while true do end end
 `
 
-func newBMachine() *bmachine {
+var preludeUnit *code.Unit // compiled once per process
+
+func newBMachine() *bmachine { return newBMachineLibs(false) }
+
+// newBMachineLibs: the sequence families need base, debug and runtime only
+// (iolib allocates three 64 kB buffers per runtime); the io family loads
+// everything.
+func newBMachineLibs(all bool) *bmachine {
 	r := rt.New(nil)
 	runtime.SetFinalizer(r, nil)
 	m := &bmachine{r: r, byObj: map[interface{}]*seamReg{}, fn: map[string]rt.Value{}}
 	curMachine = m
-	m.cleanup = lib.LoadAll(r)
+	if all {
+		m.cleanup = lib.LoadAll(r)
+	} else {
+		m.cleanup = lib.LoadLibs(r, base.LibLoader, packagelib.LibLoader, debuglib.LibLoader, runtimelib.LibLoader)
+	}
 	env := r.GlobalEnv()
 	def := func(name string, nargs int, f func(t *rt.Thread, c *rt.GoCont) (rt.Cont, error)) {
 		g := r.SetEnvGoFunc(env, name, f, nargs, false)
@@ -601,10 +629,14 @@ func newBMachine() *bmachine {
 		m.logAfter(int(i), ctx)
 		return c.Next(), nil
 	})
-	clos, err := r.CompileAndLoadLuaChunk("prelude", []byte(prelude), rt.TableValue(env))
-	if err != nil {
-		panic("prelude: " + err.Error())
+	if preludeUnit == nil {
+		u, _, err := r.CompileLuaChunk("prelude", []byte(prelude))
+		if err != nil {
+			panic("prelude: " + err.Error())
+		}
+		preludeUnit = u
 	}
+	clos := r.LoadLuaUnit(preludeUnit, rt.TableValue(env))
 	if err := rt.Call(r.MainThread(), rt.FunctionValue(clos), nil, rt.NewTerminationWith(nil, 0, false)); err != nil {
 		panic("prelude: " + err.Error())
 	}
@@ -784,6 +816,7 @@ func renderLua(ops []bop) string {
 	var sb strings.Builder
 	var rec func(from, to int, indent string)
 	rec = func(from, to int, indent string) {
+		depth := len(indent) / 2
 		for i := from; i < to; i++ {
 			o := ops[i]
 			id := int(o.v) + 1
@@ -808,7 +841,7 @@ func renderLua(ops []bop) string {
 			case oEnter:
 				end := matchLeave(ops, i)
 				inst := instOf(ops, i)
-				fmt.Fprintf(&sb, "local c%d = runtime.callcontext(%s, function()\n", inst, ctxLua[o.a])
+				fmt.Fprintf(&sb, "local c%d = runtime.callcontext(%s, function()\n", inst, ctxLua(o.a, depth))
 				fmt.Fprintf(&sb, "%s  enter(%d)\n", indent, inst)
 				rec(i+1, end, indent+"  ")
 				fmt.Fprintf(&sb, "%s  bodyend(%d)\n", indent, inst)
@@ -846,6 +879,15 @@ func (m *bmachine) runLua(ops []bop) (status string) {
 }
 
 func (m *bmachine) runGo(ops []bop, from, to int) (status string) {
+	depth := 0
+	for j := 0; j < from; j++ {
+		switch ops[j].k {
+		case oEnter:
+			depth++
+		case oLeave:
+			depth--
+		}
+	}
 	for i := from; i < to; i++ {
 		o := ops[i]
 		id := int(o.v) + 1
@@ -875,7 +917,7 @@ func (m *bmachine) runGo(ops []bop, from, to int) (status string) {
 				mode = ops[end].a
 			}
 			inner := ""
-			ctx, _ := m.r.MainThread().CallContext(ctxDef(o.a), func() error {
+			ctx, _ := m.r.MainThread().CallContext(ctxDef(o.a, depth), func() error {
 				m.logNow("enter", inst)
 				inner = m.runGo(ops, i+1, end)
 				m.logNow("bodyend", inst)
